@@ -121,6 +121,18 @@ class HistArith(Hist):
         if rng.random() < 0.7:
             host = self.pick(rng, lambda s: len(s.net.gates) >= need and len(s.net.gates) + spec.get('cost', 40) <= 4000
                              and s.net.is_acyclic())
+        if host is None and rng.random() < 0.15:
+            from ..legacy import artifacts
+
+            texts = artifacts()
+            if texts:
+                try:
+                    real0 = self.Circuit.from_bench_string(texts[rng.randrange(len(texts))])
+                    if len(real0.gates) >= need:
+                        host = self.new_slot(real0)
+                        self.res.stats.probes.bump('gadget-on-circuit-saved-by-an-earlier-session')
+                except Exception:
+                    host = None
         if host is None:
             extra = rng.randint(0, 3) if need <= 10 else 0
             net0 = self.fresh_host(rng, need, extra)
@@ -139,6 +151,11 @@ class HistArith(Hist):
             chosen = rng.sample(pre.inputs, need)
         else:
             chosen = rng.sample(labels, need)
+            if need >= 2 and rng.random() < 0.12 and not spec.get('distinct_operands'):
+                # the same gate feeds two operand positions (the identities are about operand *values*)
+                i, j = rng.sample(range(need), 2)
+                chosen[j] = chosen[i]
+                self.res.stats.probes.bump('gadget-operand-gate-repeated')
         if any(pre.gates[x][0] != 'INPUT' for x in chosen):
             self.res.stats.probes.bump('gadget-operands-include-internal-gates')
         if need == len(pre.inputs) and need > 0 and rng.random() < 0.35:
@@ -467,13 +484,41 @@ def build_specs(eng):
     def gen_weighted(naive):
         def plan(eng, rng):
             n = rng.choice((1, 2, 3, rng.randint(4, 10)))
-            ws = [rng.randint(0, 4) for _ in range(n)]
+            ws = [rng.choice((rng.randint(0, 4), rng.randint(0, 4), rng.randint(0, 9))) for _ in range(n)]
             b, barg, sp = _basis_arg(eng, rng)
             fn = A.generate_sum_weighted_bits_naive if naive else A.generate_sum_weighted_bits_efficient
             nm = fn.__name__
+            def check(ins, outs, L):
+                # the levels of the outputs are not handed back by the generate_ form; they are determined by the
+                # identity itself: in a lane where all set output bits but one have known levels, the remaining
+                # one must account for the rest of the sum (a power of two); then every lane is verified
+                m = len(outs)
+                S = [sum(ins[i][j] << ws[i] for i in range(len(ws))) for j in range(L)]
+                lv = [None] * m
+                progress = True
+                while progress:
+                    progress = False
+                    for j in range(L):
+                        unk = [k for k in range(m) if outs[k][j] and lv[k] is None]
+                        if len(unk) == 1:
+                            rest = S[j] - sum(1 << lv[k] for k in range(m) if outs[k][j] and lv[k] is not None)
+                            if rest <= 0 or rest & (rest - 1):
+                                return ('weighted-sum', f'lane {j}: operands sum to {S[j]}, no level for output {unk[0]} fits (weights {ws})')
+                            lv[unk[0]] = rest.bit_length() - 1
+                            progress = True
+                known = [x for x in lv if x is not None]
+                if len(set(known)) != len(known):
+                    return ('levels-not-distinct', f'inferred levels {lv}')
+                for j in range(L):
+                    if any(outs[k][j] and lv[k] is None for k in range(m)):
+                        continue
+                    if S[j] != sum(1 << lv[k] for k in range(m) if outs[k][j]):
+                        return ('weighted-sum', f'lane {j}: operands sum to {S[j]} but the outputs (levels {lv}) decode to something else (weights {ws})')
+                return None
+
             return dict(front='generate', desc=f'{nm}({ws}, basis={barg!r})', call=lambda: fn(ws, basis=barg),
                         in_groups=lambda net: [[x] for x in net.inputs], out_groups=lambda net: [[x] for x in net.outputs],
-                        check=lambda i, o, L: None, basis=b, basis_spelling=sp, bound_kind='naive' if naive else 'eff', _n=n)
+                        check=check, basis=b, basis_spelling=sp, bound_kind='naive' if naive else 'eff', _n=n)
         return plan
 
     add('C07', 'generate_sum_weighted_bits_efficient', 1)(gen_weighted(False))
